@@ -6,6 +6,7 @@ import (
 	"fmt"
 	"regexp"
 	"runtime"
+	"sort"
 	"strings"
 	"time"
 
@@ -38,6 +39,7 @@ type c07Arm struct {
 	hung     bool // did not return and every goroutine of the code under test is blocked
 	slow     bool // did not return but something was still running (inconclusive)
 	slowAt   string
+	hungAt   string // innermost repo frames of the blocked goroutines (sorted, unique)
 }
 
 // c07RunningFrames names the innermost repo frame of each goroutine that is
@@ -63,6 +65,34 @@ func c07RunningFrames() string {
 			}
 		}
 	}
+	return strings.Join(out, ",")
+}
+
+// c07BlockedFrames names the innermost repo frame of every goroutine of the
+// code under test (all are parked when this is called).
+func c07BlockedFrames() string {
+	buf := make([]byte, 16<<20)
+	n := runtime.Stack(buf, true)
+	set := map[string]bool{}
+	for _, g := range strings.Split(string(buf[:n]), "\n\n") {
+		if !strings.Contains(g, "github.com/brimdata/super/") {
+			continue
+		}
+		for _, l := range strings.Split(g, "\n")[1:] {
+			if strings.HasPrefix(l, "github.com/brimdata/super/") {
+				if i := strings.LastIndex(l, "("); i > 0 {
+					l = l[:i]
+				}
+				set[strings.TrimPrefix(l, "github.com/brimdata/super/")] = true
+				break
+			}
+		}
+	}
+	var out []string
+	for f := range set {
+		out = append(out, f)
+	}
+	sort.Strings(out)
 	return strings.Join(out, ",")
 }
 
@@ -288,6 +318,7 @@ func (x *c07Exec) run(optimize bool, pre, post func(dag.Seq)) *c07Arm {
 		}
 		if c07Deadlocked() {
 			arm.hung = true
+			arm.hungAt = c07BlockedFrames()
 		} else {
 			arm.slow = true
 			arm.slowAt = c07RunningFrames()
@@ -381,6 +412,10 @@ func runC07(c *rt.Ctx) {
 	nlake := c.N(300, 5000)
 	for i := 0; i < nlake; i++ {
 		c.Case("lake", i, func(o *rt.Obs) { c07Lake(c, o) })
+	}
+	nmerge := c.N(200, 4000)
+	for i := 0; i < nmerge; i++ {
+		c.Case("merge", i, func(o *rt.Obs) { c07Merge(c, o) })
 	}
 	njoin := c.N(300, 6000)
 	for i := 0; i < njoin; i++ {
@@ -477,6 +512,61 @@ func c07Lake(c *rt.Ctx, o *rt.Obs) {
 	o.Desc(map[string]any{"program": p, "pool": spec, "rows": len(vals), "loads": loads, "objects": len(objs), "input": prog.FormatValues(vals, 60)})
 	x := &c07Exec{zctx: zctx, text: p.Text, vals: vals, lake: l}
 	c07CheckExec(c, o, x, p)
+}
+
+// c07Merge: an explicit `merge <key>` over fork or switch legs that are sorted on
+// the key, sorted on something else, or not sorted at all, followed by consumers
+// of a sort order (group-by on the key, head/tail-free so that only multisets
+// are compared).  What the optimizer believes about the merge's output order
+// (and what it lifts into the legs) is exercised far more often than by the
+// general grammar.
+func c07Merge(c *rt.Ctx, o *rt.Obs) {
+	r := o.R
+	zctx := zed.NewContext()
+	key := rt.Pick(r, []string{"g", "v", "id", "s"})
+	dir := rt.Pick(r, []string{"", "", " desc"})
+	leg := func() string {
+		var parts []string
+		if r.Chance(2, 3) {
+			parts = append(parts, rt.Pick(r, []string{"where id % 2 == 0", "where id % 2 == 1", "where v > 2", "where id % 3 != 1", "where g >= 0", "where g < 0"}))
+		}
+		switch r.Intn(4) {
+		case 0:
+			parts = append(parts, "sort "+key+dir)
+		case 1:
+			parts = append(parts, "sort id")
+		}
+		if len(parts) == 0 {
+			return "pass"
+		}
+		return strings.Join(parts, " | ")
+	}
+	var head string
+	if r.Chance(1, 2) {
+		head = fmt.Sprintf("fork (=> %s => %s)", leg(), leg())
+	} else {
+		head = fmt.Sprintf("switch (case id %% 2 == 0 => %s case true => %s)", leg(), leg())
+	}
+	mid := rt.Pick(r, []string{"", "", " | put w:=id+1", " | cut id,g,v,s", " | where v >= 0 or v < 0", " | head 1000"})
+	tail := rt.Pick(r, []string{
+		"count() by " + key,
+		"sum(id) by " + key,
+		"count() by " + key + " | sort " + key,
+		"count() by " + key + ",id",
+		"collect(id) by " + key,
+		"yield " + key,
+	})
+	text := fmt.Sprintf("where %s != null | %s | merge %s%s%s | %s", key, head, key, dir, mid, tail)
+	p := &prog.Program{Text: text, Mode: prog.ModeMultiset, ModeName: "multiset"}
+	if strings.HasPrefix(tail, "collect") {
+		p.Norm = map[string]prog.Norm{"collect": prog.NormMultiset}
+	}
+	in := prog.InputOpts{}
+	if r.Chance(1, 2) {
+		in.DistinctG, in.DistinctS = 3, 3
+	}
+	vals := prog.GenInput(r, zctx, r.Range(4, 40), in)
+	c07Check(c, o, zctx, p, vals, nil, zbuf.PullerBatchValues, "")
 }
 
 // c07Join is a family of its own: joins fed from a fork whose legs have every
@@ -794,6 +884,19 @@ func c07CheckExec(c *rt.Ctx, o *rt.Obs, x *c07Exec, p *prog.Program) {
 		o.Count("identical_plans_diverged", 1)
 		return
 	}
+	// A fork whose legs are combined again by an operator that has to take from
+	// them in a data-dependent order (explicit merge, join): the router hands each
+	// batch to the legs in turn and blocks on a leg that is not being read while
+	// the combiner waits for the other leg.  One root cause, independent of what
+	// the optimizer did (it only changes how much flows through the legs).
+	if hung := a.hungAt + b.hungAt; (a.hung != b.hung) && strings.Contains(hung, "runtime/sam/op.(*Router)") && strings.Contains(hung, "runtime/sam/op/merge.") {
+		which := "plan-as-analyzed"
+		if b.hung {
+			which = "optimized-plan"
+		}
+		o.Violation("fork-legs-recombined-by-merge-deadlock:"+which, fmt.Sprintf("blocked goroutines at: %s\n%s", hung, detail))
+		return
+	}
 	kind := "output-differs"
 	switch {
 	case b.hung:
@@ -865,6 +968,7 @@ var c07Directed = []struct {
 	{name: "fork-leg-head-done-while-other-leg-has-eos", text: `ts > 1970-01-01T05:00:00Z | fork (=> pass => tail 8 | head 6) | search x | over a | where this == 0 | pass`, input: c07InForkHead, decl: &c07Declared{Field: "s", Desc: true}, mode: prog.ModeMultiset},
 	{name: "fork-leg-over-head-done-while-other-leg-has-eos", text: `fork (=> pass => over a with id => (yield {id,e:this}) | head 8) | m1:=sum(id), m2:=count() where has(id) and id >= 4 | sort m1 desc, m2 | sort -nulls first m2`, input: c07InForkOverHead, decl: &c07Declared{Field: "g"}, mode: prog.ModeSequence},
 	{name: "streaming-group-by-sorted-key-is-not-the-first-key", text: `m1:=count() by v,g`, input: `{g:0,v:0}{g:0,v:0}{g:0,v:0}{g:0,v:1}{g:0,v:1}{g:0,v:1}{g:0,v:0}{g:0,v:0}{g:0,v:0}{g:1,v:0}`, decl: &c07Declared{Field: "g"}, mode: prog.ModeMultiset},
+	{name: "fork-legs-recombined-by-an-explicit-merge", text: `where v != null | fork (=> where g < 0 | sort v => pass) | merge v | count() by v,id`, input: c07InForkMerge, mode: prog.ModeMultiset},
 }
 
 func c07DirectedCase(c *rt.Ctx, o *rt.Obs, i int) {
